@@ -17,6 +17,7 @@ import (
 	"os"
 	"os/exec"
 	"path/filepath"
+	"reflect"
 	"strconv"
 	"strings"
 	"testing"
@@ -59,14 +60,21 @@ func c15Parsed(o *c15Opt) bool {
 	if o.Kind == "StringSlice" || o.Kind == "FloatSlice" {
 		return true
 	}
-	t, ok := c15Table[o.Name]
-	return ok && (t.bad != "" || strings.ContainsAny(t.v1, ";="))
+	switch o.Name {
+	case "proxy.addr", "ui.addr", "proxy.cs", "proxy.auth", "bgp.peers":
+		return true
+	}
+	if verifx.Thorough() {
+		t, ok := c15Table[o.Name]
+		return ok && (t.bad != "" || strings.ContainsAny(t.v1, ";="))
+	}
+	return false
 }
 
 // c15DegCase: the single-source and two-source cases of the model without junk, canonical
 // spelling, in which the abstract value v1 occurs.
 func c15DegCase(c *c15Case) bool {
-	if c.Kind != "" || c.Opt != "" || len(c.Junk) > 0 || c.Fstate == "junk" || c.Via != "validate" || c.FenvCase != "upper" || c.EnvCase != "upper" {
+	if c.Kind != "" || c.Opt != "" || (c.NSrc != "" && c.NSrc != c15None) || len(c.Junk) > 0 || c.Fstate == "junk" || c.Via != "validate" || c.FenvCase != "upper" || c.EnvCase != "upper" {
 		return false
 	}
 	if c.File == c15None && c.Fstate != "absent" {
@@ -373,4 +381,129 @@ func c15RunHistory(t *testing.T) {
 		}
 	}
 	verifx.Summary(map[string]any{"hist_options": nopts, "histories": nhist, "hist_steps": steps, "hist_loads": loads, "fresh_refs": freshRefs + 1, "hist_samples": samples})
+}
+
+// ---------------------------------------------------------------- neighbours (two options at a time)
+
+var c15Ill = map[string]string{"Int": "12x", "Uint": "-3x", "Bool": "maybe", "Duration": "fast", "Float64": "1.2.3"}
+
+// c15Neighbour returns the typed option that comes right before / after o in the order in which
+// Load walks over the options (flag.VisitAll: by name).
+func (w *c15Worker) neighbour(o *c15Opt, side string) *c15Opt {
+	var best *c15Opt
+	for i := range w.opts {
+		a := &w.opts[i]
+		if _, typed := c15Ill[a.Kind]; !typed || a.Name == o.Name || len(a.Ctx) > 0 {
+			continue
+		}
+		if _, validated := c15Table[a.Name]; validated {
+			continue
+		}
+		switch side {
+		case "before":
+			if a.Name < o.Name && (best == nil || a.Name > best.Name) {
+				best = a
+			}
+		case "after":
+			if a.Name > o.Name && (best == nil || a.Name < best.Name) {
+				best = a
+			}
+		}
+	}
+	return best
+}
+
+// runNeighbour replays a case in which a source also says something about a neighbour option.
+// The outcome must be the one of the same Load with THIS option's effective value moved to the
+// command line (where the walk over the environment and the file cannot touch it) and the
+// neighbour said the same.
+func (w *c15Worker) runNeighbour(c *c15Case, o *c15Opt, oi int, ref *c15Ref, idx int) bool {
+	if ref.isBad["v1"] || ref.isBad["v2"] || c.Via != "validate" {
+		return false
+	}
+	a := w.neighbour(o, c.NSide)
+	if a == nil {
+		return false
+	}
+	val := a.V["v1"]
+	if c.NForm == "ill" {
+		val = c15Ill[a.Kind]
+	}
+	args, env, file, hasFile := c15Concrete(c, o, idx, w.path)
+	refArgs := append(append([]string{"fabio"}, o.Ctx...), "-"+o.Name+"="+o.V[c.Value])
+	var refEnv []string
+	refFile := ""
+	switch c.NSrc {
+	case "fenv", "env":
+		pfx := "FABIO_"
+		if c.NSrc == "env" {
+			pfx = ""
+		}
+		e := c15EnvName(a, pfx, "upper") + "=" + val
+		if c.NSide == "before" {
+			env = append([]c15Entry{{"real", e}}, env...)
+		} else {
+			env = append(env, c15Entry{"real", e})
+		}
+		refEnv = []string{e}
+	case "file":
+		if !hasFile {
+			return false
+		}
+		line := a.Name + " = " + val + "\n"
+		if c.NSide == "before" {
+			file = line + file
+		} else {
+			file += line
+		}
+		refFile = "# reference\n" + line
+	}
+	if hasFile {
+		os.WriteFile(w.path, []byte(file), 0o644)
+	}
+	environ := c15EnvStrings(env)
+	load := func() (c15Outcome, c15Outcome) {
+		got := c15Load(args, environ)
+		ra := refArgs
+		if refFile != "" {
+			rp := w.path + ".ref"
+			os.WriteFile(rp, []byte(refFile), 0o644)
+			ra = append(append([]string{}, refArgs...), "-cfg", rp)
+		}
+		want := c15Load(ra, refEnv)
+		w.loads += 2
+		return got, want
+	}
+	same := func(g, x c15Outcome) bool {
+		if g.panic != nil || x.panic != nil {
+			return false
+		}
+		if (g.err != nil) != (x.err != nil) {
+			return false
+		}
+		return g.err != nil || reflect.DeepEqual(g.cfg, x.cfg)
+	}
+	got, want := load()
+	for try := 0; try < 2 && !same(got, want); try++ { // transient interface-query errors
+		got, want = load()
+	}
+	w.nnbr++
+	w.ran++
+	if same(got, want) {
+		return true
+	}
+	rec := *c
+	rec.Opt, rec.Idx, rec.Args, rec.EnvB64, rec.EnvText = o.Name, idx, args, c15B64(environ), c15Quote(environ)
+	feat := map[string]any{"sub": "sources", "clause": "neighbour-interference", "kind": o.Kind, "winner": c.Winner,
+		"nside": c.NSide, "nsrc": c.NSrc, "nform": c.NForm}
+	if got.panic != nil || want.panic != nil {
+		feat["clause"] = "load-panic"
+		verifx.Fail(rec, feat, "config.Load panicked: %v %v\nargs=%q environ=%s file=%q", got.panic, want.panic, args, c15Quote(environ), c15Trunc(file))
+		return true
+	}
+	verifx.Fail(rec, feat,
+		"%s=%q from %s next to the %s value %q of %s (which Load visits %s it) from %s: the configuration differs from the one with %s on the command line and the same said about %s: %s (errors: %v / %v)\nargs=%q environ=%s file=%q",
+		o.Name, o.V[c.Value], c.Winner, map[string]string{"ok": "well-formed", "ill": "ill-formed"}[c.NForm], val, a.Name, c.NSide, c.NSrc, o.Name, a.Name,
+		c15Diff(got.cfg, want.cfg), got.err, want.err, args, c15Quote(environ), c15Trunc(file))
+	return true
 }
